@@ -15,6 +15,16 @@ Ltac sproj :=
        g_overdue g_inflight g_maxdur
        with_now with_subs with_routed with_avail with_evlog with_rtask with_tasks with_calls with_reqs with_ready
        with_pub set_diverged with_ghost set_pc set_must add_waiter set_rstate enqueue ost fst snd].
+Tactic Notation "sproj" "in" hyp(H) :=
+  cbn [now svcs subs routed avail evlog rtask tasks ntasks calls reqs nreqs ready pub nsid lapsed diverged
+       g_overdue g_inflight g_maxdur
+       with_now with_subs with_routed with_avail with_evlog with_rtask with_tasks with_calls with_reqs with_ready
+       with_pub set_diverged with_ghost set_pc set_must add_waiter set_rstate enqueue ost fst snd] in H.
+Tactic Notation "sproj" "in" "*" :=
+  cbn [now svcs subs routed avail evlog rtask tasks ntasks calls reqs nreqs ready pub nsid lapsed diverged
+       g_overdue g_inflight g_maxdur
+       with_now with_subs with_routed with_avail with_evlog with_rtask with_tasks with_calls with_reqs with_ready
+       with_pub set_diverged with_ghost set_pc set_must add_waiter set_rstate enqueue ost fst snd] in *.
 Ltac dmatch :=
   match goal with
   | |- context [match ?x with _ => _ end] => destruct x eqn:?
